@@ -194,12 +194,14 @@ type StreamFactory interface {
 }
 
 func (p *StreamPool) connections() []*connection {
+	verifYieldRW(2, &p.mu, false)
 	p.mu.RLock()
 	conns := make([]*connection, 0, len(p.conns))
 	for _, conn := range p.conns {
 		conns = append(conns, conn)
 	}
 	p.mu.RUnlock()
+	conns = verifOrderConns(conns)
 	return conns
 }
 
@@ -241,6 +243,7 @@ func (a *Assembler) FlushWithOptions(opt FlushOptions) (flushed, closed int) {
 	flushes := 0
 	for _, conn := range conns {
 		flushed := false
+		verifYieldM(8, &conn.mu)
 		conn.mu.Lock()
 		if conn.closed {
 			// Already closed connection, nothing to do here.
@@ -280,6 +283,7 @@ func (a *Assembler) FlushAll() (closed int) {
 	conns := a.connPool.connections()
 	closed = len(conns)
 	for _, conn := range conns {
+		verifYieldM(9, &conn.mu)
 		conn.mu.Lock()
 		for !conn.closed {
 			a.skipFlush(conn)
@@ -352,6 +356,7 @@ const assemblerReturnValueInitialSize = 16
 // This sets some sane defaults for the assembler options,
 // see DefaultAssemblerOptions for details.
 func NewAssembler(pool *StreamPool) *Assembler {
+	verifYieldRW(6, &pool.mu, true)
 	pool.mu.Lock()
 	pool.users++
 	pool.mu.Unlock()
@@ -496,13 +501,16 @@ func (p *StreamPool) newConnection(k key, s Stream, ts time.Time) (c *connection
 // does not already exist, returns nil.  This allows us to check for a
 // connection without actually creating one if it doesn't already exist.
 func (p *StreamPool) getConnection(k key, end bool, ts time.Time) *connection {
+	verifYieldRW(3, &p.mu, false)
 	p.mu.RLock()
 	conn := p.conns[k]
 	p.mu.RUnlock()
 	if end || conn != nil {
 		return conn
 	}
+	verifPoint(4)
 	s := p.factory.New(k[0], k[1])
+	verifYieldRW(5, &p.mu, true)
 	p.mu.Lock()
 	conn = p.newConnection(k, s, ts)
 	if conn2 := p.conns[k]; conn2 != nil {
@@ -558,6 +566,7 @@ func (a *Assembler) AssembleWithTimestamp(netFlow gopacket.Flow, t *layers.TCP, 
 			}
 			return
 		}
+		verifYieldM(7, &conn.mu)
 		conn.mu.Lock()
 		if !conn.closed {
 			break
@@ -660,6 +669,7 @@ func (a *Assembler) skipFlush(conn *connection) {
 }
 
 func (p *StreamPool) remove(conn *connection) {
+	verifYieldRW(1, &p.mu, true)
 	p.mu.Lock()
 	delete(p.conns, conn.key)
 	p.free = append(p.free, conn)
